@@ -259,8 +259,9 @@ def op_const(op):
 class Flow:
     """Definition sites and backward origin slices for one body."""
 
-    def __init__(self, fn):
+    def __init__(self, fn, transparent=()):
         self.fn = fn
+        self.transparent = set(transparent)  # callee names whose result is treated as a copy of their first argument
         self.defs = defaultdict(list)  # local -> list of ("stmt", bb, i, place, rv) | ("call", bb, term)
         for bi, b in enumerate(fn.blocks):
             if b["c"]:
@@ -295,7 +296,15 @@ class Flow:
         for d in ds:
             if d[0] == "call":
                 if len(d[2]["d"]) == 1:
-                    out.add(("call", d[1], tuple(proj)))
+                    nm = (fn.callee_def(d[2]) or {}).get("n")
+                    if nm in self.transparent and d[2]["a"]:
+                        # Try::branch -> Continue(v): drop the payload selector, keep deeper fields
+                        sub = tuple(proj)
+                        if nm == "branch" and sub[:1] == ("0",):
+                            sub = sub[1:]
+                        out |= self.op_roots(d[2]["a"][0], sub, depth + 1, seen)
+                    else:
+                        out.add(("call", d[1], tuple(proj)))
                 continue
             _, bi, si, pl, rv = d
             if len(pl) > 1:
